@@ -133,6 +133,14 @@ func orderCases() []orderCase {
 		Partial: [][2]int{{0, 2}, {0, 3}, {1, 2}, {1, 3}, {2, 4}, {2, 5}, {3, 4}, {3, 5}}})
 	cs = append(cs, orderCase{Name: "map-key-value-pairs", Src: `%{t(0, "a"): t(1, 1), t(2, [1]): t(3, 2), t(4, 3): t(5, 3)}`, Order: seq(6),
 		Partial: [][2]int{{0, 2}, {0, 3}, {1, 2}, {1, 3}, {2, 4}, {2, 5}, {3, 4}, {3, 5}}})
+	// duplicate-key resolution across several `**` expansions in one call / literal: first occurrence wins
+	cs = append(cs, orderCase{Name: "dup-call-two-unpacks", Src: "ff(1, **{k: 1}, **{k: 2, j: 3}).p", WantOut: "[1, nil, nil, 1, 3, 0]\n"})
+	cs = append(cs, orderCase{Name: "dup-call-three-unpacks", Src: "{|k: 0| k}(**{k: 'first}, **{k: 'second}, **{k: 'third}).p", WantOut: "first\n"})
+	cs = append(cs, orderCase{Name: "dup-call-explicit-vs-unpack", Src: "ff(1, k: 9, **{k: 1, j: 2}).p", WantOut: "[1, nil, nil, 9, 2, 0]\n"})
+	cs = append(cs, orderCase{Name: "dup-propcall-two-unpacks", Src: "oo.m(1, 2, **{k: 1}, **{k: 2, j: 3}).p", WantOut: "[1, 2, 1, 3]\n"})
+	cs = append(cs, orderCase{Name: "dup-obj-two-unpacks", Src: "{**{y: 1}, **{y: 2, z: 3}}.p", WantOut: "{\"y\": 1, \"z\": 3}\n"})
+	cs = append(cs, orderCase{Name: "dup-map-two-unpacks", Src: "%{**%{1: 1}, **%{1: 2, 2: 3}}.p", WantOut: "%{1: 1, 2: 3}\n"})
+	cs = append(cs, orderCase{Name: "dup-kwargs-var", Src: "{|| \\_}(**{k: 1}, **{k: 2, j: 3}).p", WantOut: "{\"j\": 3, \"k\": 1}\n"})
 	// stdin-consuming and iterator-advancing variants (value shows the order)
 	cs = append(cs, orderCase{Name: "stdin-array", Src: "[<>.S, <>.S, <>.S].p", Stdin: "l1\nl2\nl3\n", WantOut: "[\"l1\", \"l2\", \"l3\"]\n"})
 	cs = append(cs, orderCase{Name: "stdin-embedded-str", Src: `"#{<>.S} #{<>.S}".p`, Stdin: "l1\nl2\n", WantOut: "l1 l2\n"})
